@@ -24,7 +24,11 @@ RULE = ("Every decoder call on untrusted input is recorded as one event (child p
         "lists that disagree, bags with 0 / 2 roots, truncated / mistagged / error answers, malformed answer frames), and in-package decodeLength, "
         "processQueryAnswer, ParsePacket. S->C: Decode_Gen (TLC) takes valid encodings recorded by the driver and writes, with Boc!Write, bags in "
         "which each cell in turn is a pruned branch (right hash, wrong hash, three levels, too short), a library cell, an unknown exotic type, a "
-        "Merkle header, and bags with no / two roots; they enter through the library's BoC reader. A budget breach, Timeout or Crash is re-run from "
+        "Merkle header, and bags with no / two roots; they enter through the library's BoC reader. VmTuple_Gen (TLC) builds, from the schema, TVM tuples of 0..5 (0..8) entries - null, "
+        "tinyint, nan, nested tuples - which the library cannot encode, with the value each denotes, and their ill-formed neighbours (length field over the "
+        "structure of n-1 / n+1 entries, missing tail, head reference to a leaf, lengths 255 / 256 over few references); each is decoded as VmStackValue, on "
+        "a VmStack and through VmStack.UnmarshalTL: well-formed ones must decode to exactly that value, all must return; they are also seeds of the mutation "
+        "classes, as are driver-laid-out small BinTree / HashmapAugE / ChunkedData encodings (decode-only as well). A budget breach, Timeout or Crash is re-run from "
         "its recorded input and reported only if it happens again. distinct = distinct inputs executed.")
 
 END_RE = re.compile(r'"k":\s*"End"')
@@ -227,7 +231,11 @@ def helper_class(e, b):
     nids = (b or e).get("nids", -1)
     if e.get("site") == "liteapi.GetTransactions" and bags and nids >= 0 and bags[0].get("nroots", -1) > nids:
         return "ids_shorter_than_transactions"
-    return re.sub(r"^specgen:", "", e.get("class", "?"))
+    return re.sub(r"@\d+", "", re.sub(r"^specgen:", "", e.get("class", "?")))
+
+
+TUPLE_SEED0 = 100000     # seed numbers of the bags made from VmTuple_Gen's well-formed tuples
+BAD_SEEDS = {}           # seed number -> key, for seeds that are rejected unchanged: their mutants show the same finding
 
 
 def key_of(e, note, b=None):
@@ -244,6 +252,13 @@ def key_of(e, note, b=None):
         if guard == "bytes_len" and what in ("crash", "alloc", "timeout", "time"):
             return "C08:tl.bytes:len_alloc"
         return "C08:tl:%s:%s:%s" % (e.get("ty"), guard, what)
+    if kind == "Tuple":
+        # spec-built tuples: well-formed ("wf") or the ill-formed neighbour class, whichever of the three entry points met it
+        return "C08:tlb:VmStkTuple:%s:%s" % (cls.replace("tuple:", ""), what)
+    if kind == "Decode" and e.get("seedid", -1) in BAD_SEEDS:
+        return BAD_SEEDS[e["seedid"]]
+    if kind == "Decode" and cls == "specgen:same" and e.get("seedid", -1) >= TUPLE_SEED0:
+        return "C08:tlb:VmStkTuple:wf:%s" % what
     if kind == "Decode" and cls.startswith("big_"):
         # large inputs: the call site is the generic codec (Hashmap, HashmapAug, BinTree, SnakeData, VmStack), whatever
         # its parameters; work out of proportion shows as allocation, processor time or a call the watchdog had to stop,
@@ -253,6 +268,9 @@ def key_of(e, note, b=None):
         return "C08:tlb:%s:%s" % (g, "cost" if what in ("timeout", "time", "alloc") else what)
     if kind in ("Decode", "Bag"):
         return "C08:tlb:%s:%s:%s" % (e.get("type"), re.sub(r"^(specgen|mut):", "", cls), what)
+    m = re.search(r"specgen:\w+@(\d+)", cls)
+    if m and int(m.group(1)) in BAD_SEEDS:     # a bag made from a seed that is rejected unchanged
+        return BAD_SEEDS[int(m.group(1))]
     site = re.sub(r"^(liteapi|code|liteclient)\.", "", e.get("site", "?"))
     hc = helper_class(e, b)
     if what == "panic" and hc in ("zero_roots", "ids_shorter_than_transactions"):
@@ -305,10 +323,27 @@ def run(ck):
     empty = os.path.join(ck.work, "empty.json")
     open(empty, "w").write("{}")
 
+    # ---------------------------------------------------------------- S->C: spec-built encodings of a decode-only type
+    tres = ck.tlc_or_infra("VmTuple_Gen", "gen/VmTuple_Gen_full.cfg" if ck.thorough else "gen/VmTuple_Gen.cfg", workers=4, timeout=900, name="vmtuple", heap_gb=3)
+    tuples = tres.vecs()
+    nwf = sum(1 for v in tuples if v["wf"])
+    if nwf < 20 or len({v["kind"] for v in tuples}) < 5:
+        raise Infra("VmTuple_Gen wrote only %d well-formed tuples / %d kinds" % (nwf, len({v["kind"] for v in tuples})))
+    tvp = os.path.join(ck.work, "tuples.ndjson")
+    vlib.write_ndjson(tvp, [{k: v[k] for k in ("n", "kind", "wf", "vals", "boc", "stack")} for v in tuples])
+    ck.extra["spec_tuples"] = {"vectors": len(tuples), "well_formed": nwf, "kinds": sorted({v["kind"] for v in tuples})}
+    ck.sample({"direction": "S->C", "tuple": {k: tuples[len(tuples) // 2][k] for k in ("n", "kind", "wf", "vals", "boc")}})
+
     # ---------------------------------------------------------------- S->C: spec-written bags
     seeds = os.path.join(ck.work, "seeds.ndjson")
     ck.run_vh(["drive", "C08", "-part", "seeds", "-out", seeds, "-tier", ck.tier, "-seed", ck.seed])
     srows = [l for l in open(seeds).read().splitlines() if '"k":"End"' not in l]
+    # the well-formed tuples are seeds of the mutation classes like recorded encodings (as a value and on a stack)
+    wfs = [v for v in tuples if v["wf"] and 2 <= len(v["cells"]) <= 12]
+    step = max(1, len(wfs) // (60 if ck.thorough else 16))
+    for k, v in enumerate(wfs[::step]):
+        srows.append(json.dumps({"type": "tlb.VmStackValue", "seed": TUPLE_SEED0 + 2 * k, "cells": v["cells"], "roots": [0]}))
+        srows.append(json.dumps({"type": "tlb.VmStack", "seed": TUPLE_SEED0 + 1 + 2 * k, "cells": v["stackcells"], "roots": [0]}))
     if len(srows) < 50:
         raise Infra("only %d seed encodings" % len(srows))
     nsh = 8
@@ -340,6 +375,7 @@ def run(ck):
     for i in range(3):
         jobs.append(Job(ck, "helpers%d" % i, "helpers", i, 3, infile=mp, rest=["schema=" + schema, "abiops=" + ops]))
     jobs.append(Job(ck, "big0", "big", 0, 1))
+    jobs.append(Job(ck, "tuples0", "tuples", 0, 1, infile=tvp))
     t0 = time.time()
     results = vlib.parallel(lambda j: inpkg_job(ck) if j == "inpkg" else j.run(), ["inpkg"] + jobs, n=vlib.NCPU)
     jobs = results
@@ -359,7 +395,7 @@ def run(ck):
         js = [j for j in jobs if j.part == part]
         return [js[k:k + size] for k in range(0, len(js), size)]
     groups = (grouped("tlb", 1 if ck.thorough else 2) + grouped("bags", 2) + grouped("tl", 4 if ck.thorough else 8)
-              + [[j for j in jobs if j.part in ("helpers", "inpkg", "big")]])
+              + [[j for j in jobs if j.part in ("helpers", "inpkg", "big", "tuples")]])
     t0 = time.time()
     def val(g):
         name = g[0].name if len(g) == 1 else "%s_%s" % (g[0].name, g[-1].name)
@@ -384,7 +420,7 @@ def run(ck):
         return res, rejected
     verdicts = vlib.parallel(val, groups, n=8 if ck.thorough else 13)
     log("trace validation done in %.1fs (%d TLC processes)" % (time.time() - t0, len(groups)))
-    stats = {"Decode": 0, "TlDecode": 0, "Helper": 0, "Bag": 0, "Panic": 0, "Timeout": 0, "Crash": 0, "values_judged": 0, "returned_value": 0}
+    stats = {"Decode": 0, "TlDecode": 0, "Helper": 0, "Bag": 0, "Tuple": 0, "Panic": 0, "Timeout": 0, "Crash": 0, "values_judged": 0, "returned_value": 0}
     types, tltypes, sites = set(), set(), {}
     cand = []       # (job, event, note)
     dec_judged = {"dec": 0, "dec-refuses": 0}
@@ -444,10 +480,27 @@ def run(ck):
                                 "max_cpu_ms": max([e["ms"] for e in big] or [0])}
     if not any(e["type"].startswith("tlb.HashmapE[") for e in bigok) and not any(c[1].get("class", "").startswith("big_") for c in cand):
         raise Infra("no large dictionary was decoded in full: the large-input part is vacuous")
+    tup_ok = sum(1 for j in jobs if j.part == "tuples" for e in vlib.read_ndjson(j.trace) if e.get("k") == "Tuple" and e.get("wf") and e.get("res") == "ok")
+    ck.extra["spec_tuples"]["well_formed_decoded"] = tup_ok
+    if tup_ok == 0 and not any(c[1].get("kind") == "Tuple" or c[1].get("k") == "Tuple" for c in cand):
+        raise Infra("no spec-built tuple was decoded: the decode-only part is vacuous")
+    same = [e for j in jobs if j.part == "bags" for e in vlib.read_ndjson(j.trace) if e.get("class") == "specgen:same"]
+    ck.extra["seeds_decoded_unchanged"] = {"fed": len(same), "ok": sum(1 for e in same if e.get("res") == "ok"),
+                                           "decode_only_types_ok": sorted({e["type"] for e in same if e.get("res") == "ok" and ("[" in e["type"] or e["type"] in ("tlb.ChunkedData", "tlb.VmStackValue", "tlb.VmStack"))})}
     if stats["values_judged"] < 1000:
         raise Infra("only %d returned values were judged against the schema" % stats["values_judged"])
 
     # ---------------------------------------------------------------- second run of everything rejected (2 inputs per key), then report
+    BAD_SEEDS.clear()
+    for j, e, note in cand:     # a seed that is rejected before any mutation: its mutants are the same finding
+        if e.get("class") == "specgen:same" and e.get("seedid", -1) >= 0:
+            BAD_SEEDS[e["seedid"]] = None
+    for j, e, note in cand:
+        if e.get("class") == "specgen:same" and e.get("seedid", -1) >= 0:
+            sid = e["seedid"]
+            del BAD_SEEDS[sid]
+            k = key_of(e, note)
+            BAD_SEEDS[sid] = k
     bykey = {}
     for j, e, note in cand:
         b = j.begin_of(e["i"]) if "i" in e else None
@@ -513,7 +566,7 @@ def run(ck):
     ck.sample({"direction": "C->S", "event": dec_ok})
     ck.sample({"direction": "C->S", "event": tl_ok})
     canaries(ck, dec_ok, asts_of[dec_job.name], tl_ok, schema)
-    distinct = stats["Decode"] + stats["TlDecode"] + stats["Helper"] + stats["Bag"] + stats["Panic"] + stats["Timeout"] + stats["Crash"]
+    distinct = stats["Decode"] + stats["TlDecode"] + stats["Helper"] + stats["Bag"] + stats["Tuple"] + stats["Panic"] + stats["Timeout"] + stats["Crash"]
     return ck.finish(rule=RULE, distinct=distinct)
 
 
